@@ -1,4 +1,5 @@
 ------------------------------ MODULE APA_TrafficLight ------------------------------
+\* COVERS: {"mc": "MC_TrafficLight", "actions": ["Tick"], "devs": []}
 (* C17, UNBOUNDED time: typed (Apalache) transcription of TrafficLight + MC_TrafficLight WITHOUT the horizon     *)
 (* (`Periods`, Horizon): Tick is always enabled, t is an unbounded natural number.  TLC checks the laws for      *)
 (* t <= off + Periods * Total; here they are proved for EVERY t >= 0.                                             *)
